@@ -20,7 +20,8 @@ namespace Avra.Props.C16
 open Avra Avra.Model
 
 theorem limits_pinned :
-    maxSymbolDepth = Gen.maxSymbolDepth ∧ macroDepth = Gen.maxMacroDepth ∧ includeDepth = Gen.maxIncludeDepth := by
+    maxSymbolDepth = Gen.maxSymbolDepth ∧ macroDepth = Gen.maxMacroDepth ∧ includeDepth = Gen.maxIncludeDepth ∧
+    macroLine = Gen.maxMacroLine := by
   decide
 
 /-- "does not panic" -/
